@@ -21,7 +21,7 @@ Definition closer_after (pc : cpc) : bool := closer_phase pc && negb (closer_ear
 (* where the owner of the open transaction can be *)
 Definition owner_ok (pc : cpc) : bool :=
   match pc with
-  | IdleTr | RetTr | OT5 _ | LB1 | LB2 | LB3 _ | LB4 | LB5
+  | IdleTr | RetTr | OT5 _ | OT4b _ | OT6 _ | OT7 _ | OT7d _ | LB1 | LB2 | LB3 _ | LB4 | LB5
   | CM0 _ | CM1 _ | CM2 _ | CM3 _ | CM4 _ | CM5 _ _ | CM6 _ _ | CM6c _ | CM5f _ | CM7 _ | CM8 _ | CM8b _ | CM9 _
   | CMFu _ | CMF _
   | DC0 XUser | DC0 XLB | DC1 XUser | DC1 XLB | DC2 XUser | DC2 XLB
@@ -33,7 +33,7 @@ Definition owner_ok (pc : cpc) : bool :=
 Definition tropen_pc (pc : cpc) : bool :=
   match pc with
   | CM3 _ | CM4 _ | CM5 _ _ | CM6 _ _ | CM6c _ | CM5f _ | CM7 _ | CM8 _ | CM8b _ | CM9 _
-  | TrigS _ (SCmWc _) | TrigW _ (SCmWc _) | DC2 _ => true
+  | TrigS _ (SCmWc _) | TrigW _ (SCmWc _) | DC2 _ | OT7d _ => true
   | _ => false
   end.
 (* the lock holder may have merged writers waiting for it *)
@@ -489,6 +489,7 @@ Proof.
   all: try (solve [eapply (G_c _ i 0 0);
                    [rewrite Hpc; reflexivity | apply reltr_enabled; auto; rewrite Hpc; reflexivity
                    | rewrite Hpc; discriminate | rewrite Hpc; discriminate]]).
+  all: try (solve [destruct (closeC s) eqn:HCC; first [c_act i 0 0 | c_act i 1 0]]).
   - (* WMs *)
     assert (P : pend s <> None) by (apply (l4b s I2 i); rewrite Hpc; reflexivity).
     destruct (pend s) as [j|] eqn:HP; [| congruence].
